@@ -9,7 +9,8 @@ from genlib import *
 LEAN_MODULES = ["MpirProofs.Props.C05_ptr2"]
 THEOREMS = ["Mpir.AliasMem.rootrem_ptr_spec", "Mpir.AliasMem.rootrem_exceptions",
             "Mpir.AliasMem.mpz_mul_ptr_spec", "Mpir.AliasMem.gcdext_ptr_spec",
-            "Mpir.AliasMem.mpf_div_ptr_spec", "Mpir.AliasMem.mpf_div_by_zero",
+            "Mpir.AliasMem.mpf_div_ptr_spec", "Mpir.AliasMem.mpf_div_by_zero", "Mpir.AliasMem.mpf_mul_ptr_spec", "Mpir.AliasMem.mpf_sqrt_ptr_spec",
+            "Mpir.AliasMem.mpf_div_ui_ptr_spec", "Mpir.AliasMem.mpf_sqrt_div_ui_exceptions",
             "Mpir.AliasMem.powm_ptr_spec", "Mpir.AliasMem.powm_ui_ptr_spec", "Mpir.AliasMem.addmul_ptr_spec", "Mpir.AliasMem.submul_ptr_spec",
             "Mpir.AliasMem.mpz_sqrt_ptr_spec", "Mpir.AliasMem.mpz_lcm_ptr_spec", "Mpir.AliasMem.mpz_invert_ptr_spec"]
 PINS = [("mpz/mul.c", None), ("gmp-mparam.h", "MUL_KARATSUBA_THRESHOLD"), ("mpz/gcdext.c", None), ("mpz/powm.c", None), ("mpz/powm_ui.c", None),
